@@ -1,3 +1,4 @@
 //! Shared generators (proptest strategies).
 pub mod soup;
 pub mod util;
+pub mod scope_frag;
